@@ -171,7 +171,9 @@ def gen_net(rng, big=False, hyd=False):
                                      ref=rng.choice([n["name"] for n in nodes if n["kind"] == "T"]), level=rng.choice([1.0, 2.0, 4.5]),
                                      rel=rng.choice(["<", ">"])))
             else:
-                controls.append(dict(kind="rule", target=tgt, status=rng.choice(["CLOSED", "OPEN"]), ref=rng.choice(placed),
+                deg = {j: sum(1 for q in pipes if j in (q["a"], q["b"])) for j in placed}
+                low = [j for j in placed if deg[j] <= 2]
+                controls.append(dict(kind="rule", target=tgt, status=rng.choice(["CLOSED", "OPEN"]), ref=rng.choice(low if low and rng.random() < 0.7 else placed),
                                      pressure=rng.choice([5.0, 15.0, 30.0]), rel=rng.choice(["<", ">"])))
     return dict(patterns=pats, nodes=nodes, pipes=pipes, pumps=pumps, valves=valves, controls=controls, grid=grid,
                 duration=3600 * rng.choice([0, 2, 4]), hyd=hyd)
@@ -545,6 +547,11 @@ class SplitRunner:
                 failures.append(Failure(key, "%s %s f=%r at_end=%s: %s" % ("break_pipe" if case["brk"] else "split_pipe", case["pipe"], case["f"], case["at_end"], what),
                                         dict(rep, observed=what)))
             self.pending[-1] = (d, case, v0, sl, ("ok", view_split(res[1])), rep)
+            if len(ctx.samples) < 2 and p and p[0]["verts"] and 0 < case["f"] < 1:
+                ctx.sample(dict(kind="break" if case["brk"] else "split", case=case, pipe=p[0], new_nodes=r["nodes"][len(d0["nodes"]):][:2] and
+                                [dict(name=n["name"], elevation=n["elevation"], coordinates=n["coordinates"]) for n in r["nodes"][len(d0["nodes"]):]],
+                                parts=[dict(name=l["name"], ends=[l["start_node_name"], l["end_node_name"]], length=l["length"], vertices=l["vertices"],
+                                            check_valve=l["check_valve"]) for l in r["links"] if l["name"] in (case["pipe"], case["new_pipe"])]))
             k = (case["pipe"], case["f"], case["at_end"])
             if not case["brk"]:
                 last_split[k] = r
@@ -639,7 +646,9 @@ def hyd_compare(r0, r1, d, case):
     if worst is None:
         return None
     p = [q for q in d["pipes"] if q["name"] == case["pipe"]][0]
-    key = "split-minor-loss-duplicated" if p["minor"] > 0 else "split-cv-new-pipe" if p["cv"] else "split-changes-hydraulics"
+    opened = p["status"] == "CLOSED" and any(c["target"] == p["name"] and c["status"] == "OPEN" for c in d["controls"])
+    # the classes of the two recorded findings first (each is sufficient for a difference); everything else is unclassified
+    key = "split-closed-pipe-opened-by-control" if opened else "split-minor-loss-duplicated" if p["minor"] > 0 else "split-changes-hydraulics"
     return (key, worst[1] + " (split pipe: minor_loss=%r, check_valve=%r, %s)" % (p["minor"], p["cv"], p["status"]))
 
 
@@ -823,17 +832,18 @@ class SkelRunner:
         have_n = {n[0]: n[1] for n in v1["nodes"]}
         have_l = {l[0]: l for l in v1["links"]}
         for n in v0["nodes"]:
-            why = "a %s" % {"T": "tank", "R": "reservoir"}[n[1]] if n[1] != "J" else "referenced by a control" if n[0] in jr else None
+            why = "a %s" % {"T": "tank", "R": "reservoir"}[n[1]] if n[1] != "J" else "referenced by a control" if n[0] in jr else \
+                "listed in junctions_to_exclude" if n[0] in cfg["juncs_excl"] else None
             if why and have_n.get(n[0]) != n[1]:
-                failures.append(Failure("skel-drops-%s" % ("control-junction" if n[1] == "J" else "tank-reservoir"),
+                failures.append(Failure("skel-drops-%s" % ("tank-reservoir" if n[1] != "J" else "control-junction" if n[0] in jr else "excluded-junction"),
                                         "skeletonize removed node %s (%s)" % (n[0], why), dict(rep, observed="node %s missing" % n[0])))
         for l in v0["links"]:
-            why = "a pump/valve" if not l[3] else "referenced by a control" if l[0] in pr else None
+            why = "a pump/valve" if not l[3] else "referenced by a control" if l[0] in pr else "listed in pipes_to_exclude" if l[0] in cfg["pipes_excl"] else None
             if why and l[0] not in have_l:
-                failures.append(Failure("skel-drops-%s" % ("control-pipe" if l[3] else "pump-valve"),
+                failures.append(Failure("skel-drops-%s" % ("pump-valve" if not l[3] else "control-pipe" if l[0] in pr else "excluded-pipe"),
                                         "skeletonize removed link %s (%s)" % (l[0], why), dict(rep, observed="link %s missing" % l[0])))
             elif why and (have_l[l[0]][:4] != l[:4] or [x for x in w2.to_dict()["links"] if x["name"] == l[0]] != [x for x in d0["links"] if x["name"] == l[0]]):
-                failures.append(Failure("skel-alters-%s" % ("control-pipe" if l[3] else "pump-valve"),
+                failures.append(Failure("skel-alters-%s" % ("pump-valve" if not l[3] else "control-pipe" if l[0] in pr else "excluded-pipe"),
                                         "skeletonize replaced link %s (%s) by a different one: %s -> %s" % (l[0], why, l, have_l[l[0]]), rep))
         ted1 = total_expected(wntr, w2)
         if [t for t, _ in ted0] != [t for t, _ in ted1]:
@@ -946,8 +956,10 @@ class C19(Check):
         "node/pump/valve/pipe (split_preserves_others), the original's attributes (split_old_pipe_keeps), the new pipe has no check valve "
         "(split_new_pipe_no_cv), the new junctions sit at the interpolated elevation and at arc length f of the vertex polyline "
         "(split_new_junctions, junctionElevation_interp, crossing_eq_pointAt), vertices are cut into a prefix and the remaining suffix "
-        "(split_vertices_partition), break differs from split only in the junctions; series head loss is additive (series_headloss_additive) and "
-        "the copied minor loss is the stated exception (counterexample + _partial); skeleton_invariants: tanks, reservoirs, pumps, valves and "
+        "(split_vertices_partition), break differs from split only in the junctions; series head loss is additive (series_headloss_additive); "
+        "the two stated exceptions to 'hydraulics unchanged' are kept as full statement + counterexample + _partial: the copied minor loss "
+        "(SplitHydraulicsUnchanged) and the control-less copy of a CLOSED status (SplitStatusUnchanged); the cycle loop of run terminates "
+        "within junctionCount+1 passes for every max_cycles (run_terminates); skeleton_invariants: tanks, reservoirs, pumps, valves and "
         "control-referenced / excluded elements retained, demand entries permuted (skeleton_total_demand_conserved), the skeleton map partitions "
         "the original node set over retained nodes. The tie is a differential run of the real split_pipe / break_pipe / skeletonize against "
         "the Lean driver plus the statement evaluated on the real results (to_dict, expected_demand, WNTRSimulator before/after a split).",
@@ -1044,13 +1056,19 @@ class C19(Check):
                        dict(pipe=pn, new_pipe=pn, newj=["NJ", "NK"], at_end=False, f=0.5, brk=True),
                        dict(pipe=pn, new_pipe="NP", newj=["NJ", "R1"], at_end=True, f=2.0, brk=True)]
                 sr.run_net(d, failures, broken, 0, 0, cases=bad)
+        import time
+        t0 = time.time()
         sr.flush(failures, broken)
+        t1 = time.time()
         self.hydraulics(ctx, wntr, failures, n_hyd, 2)
+        t2 = time.time()
         for i in range(n_skel):
             d = gen_net(ctx.rng, big=True, hyd=True)
             for _ in range(2):
                 kr.run(d, gen_skel_cfg(ctx.rng, d, thorough), failures, broken)
         kr.flush(failures, broken)
+        ctx.cov["phase_seconds"] = dict(split_impl=round(t0 - ctx.t0, 1), split_driver=round(t1 - t0, 1), hydraulics=round(t2 - t1, 1),
+                                        skeletonize=round(time.time() - t2, 1))
 
     def run_item(self, ctx, wntr, item, sr, kr, failures, broken):
         if item.get("kind") == "split":
@@ -1066,9 +1084,9 @@ class C19(Check):
     def correspondence(self, ctx):
         failures, broken = [], []
         if ctx.quick:
-            self._run(ctx, failures, broken, n_split=10, n_skel=30, n_hyd=12, thorough=False)
+            self._run(ctx, failures, broken, n_split=16, n_skel=60, n_hyd=25, thorough=False)
         else:
-            self._run(ctx, failures, broken, n_split=60, n_skel=250, n_hyd=80, thorough=True)
+            self._run(ctx, failures, broken, n_split=150, n_skel=800, n_hyd=250, thorough=True)
         return failures, broken
 
     def search(self, ctx, broken):
